@@ -66,6 +66,23 @@ def fmtEv : Ev → String
   | .termSize => "termsize"
   | .render => "render"
 
+def fmtEvE : EvE → String
+  | .termSize => "termsize"
+  | .enter => "enter"
+  | .setSize c l => s!"setsize:{c}x{l}"
+  | .render c l => s!"render:{c}x{l}"
+  | .restore k => s!"restore:{k}"
+
+def fmtSize : SizeSetting → String
+  | .dyn k => s!"dyn {k}"
+  | .fixed c l => s!"fixed {c} {l}"
+
+def pSize : P SizeSetting := do
+  let k ← word
+  if k == "dyn" then do let n ← nat; pure (.dyn n)
+  else if k == "fixed" then do let c ← nat; let l ← nat; pure (.fixed c l)
+  else failure
+
 def pArgVal : P ArgVal := do
   let k ← word
   if k == "s" then do let c ← chars; pure (.str c)
@@ -136,6 +153,14 @@ def handler : Handler := fun op args =>
       let st ← pStyle; let cols ← nat; let lines ← nat; let s ← chars
       let (evs, r) := formatRun st cols lines s
       pure (fmtList fmtEv evs ++ " " ++ fmtExcept fmtResult r)) args
+  | "fentry" => run (do
+      -- <style> <cols> <lines> <size setting> <frame> <resolved cols> <resolved lines> <glue> <spec>
+      let st ← pStyle; let cols ← nat; let lines ← nat; let sz ← pSize; let fr ← nat
+      let rc ← nat; let rl ← nat; let glue ← word; let s ← chars
+      if glue != "format" && glue != "fstring" && glue != "strformat" then failure
+      let (img', evs, r) := formatEntry st cols lines (fun _ => (rc, rl)) ⟨sz, fr⟩ s
+      pure (fmtList fmtEvE evs ++ " " ++ fmtExcept fmtResult r ++ " state " ++ fmtSize img'.size ++ " " ++
+        toString img'.frame)) args
   | "draw" => run (do
       let st ← pStyle; let cols ← nat; let lines ← nat
       let h ← optOf chars; let w ← int; let v ← optOf chars; let ht ← int
